@@ -259,7 +259,7 @@ class Reader:
 
     def locals_of(self, body):
         loc = {}
-        for m in re.finditer(r"(?:^|(?<=[;{}]))\s*((?:unsigned\s+|const\s+)?[\w:]+(?:\s*<[^;]*?>)?\s*[\*&]*)\s+(\w+)\s*(?:=[^;]*)?;", body):
+        for m in re.finditer(r"(?:^|(?<=[;{}:]))\s*((?:unsigned\s+|const\s+)?[\w:]+(?:\s*<[^;]*?>)?\s*[\*&]*)\s+(\w+)\s*(?:=[^;]*)?;", body):
             ty = re.sub(r"\bconst\b", "", m.group(1)).strip().replace(" *", "*")
             if ty in ("return", "delete", "else", "new"):
                 continue
@@ -717,8 +717,153 @@ def scan_containers(rd):
     return out
 
 
+def paths_of(rd, node, ctx, store):
+    """control-flow paths of a helper body: list of (actions, returned)"""
+    kind = node[0]
+    if kind == "block":
+        cur = [([], False)]
+        for s in node[1]:
+            nxt = []
+            sub = None
+            for acts, ret in cur:
+                if ret:
+                    nxt.append((acts, True))
+                    continue
+                if sub is None:
+                    sub = paths_of(rd, s, ctx, store)
+                for a2, r2 in sub:
+                    nxt.append((acts + a2, r2))
+            cur = nxt
+            if len(cur) > 400:
+                raise ValueError("too many paths")
+        return cur
+    if kind == "simple":
+        if re.match(r"return\b", node[1]):
+            return [(rd.simple_actions(node[1], ctx, store), True)]
+        if re.match(r"break\b", node[1]):
+            return [([], False)]
+        return [(rd.simple_actions(node[1], ctx, store), False)]
+    if kind == "if":
+        ctx["conds"].append("if " + " ".join(node[1].split()))
+        if re.search(r"\b%s\b" % ctx["eng"], node[1]):
+            ctx["unparsed"].append("engine used in condition: %s" % node[1])
+        out = paths_of(rd, node[2], ctx, store)
+        out += paths_of(rd, node[3], ctx, store) if node[3] is not None else [([], False)]
+        return out
+    if kind == "switch":
+        ctx["conds"].append("switch " + " ".join(node[1].split()))
+        out = []
+        has_default = False
+        for label, stmts in node[2]:
+            ctx["conds"].append(" ".join(label.split()))
+            has_default |= label.startswith("default")
+            out += paths_of(rd, ("block", stmts), ctx, store)
+        if not has_default:
+            out.append(([], False))
+        return out
+    if kind == "loop":
+        body = paths_of(rd, node[2], ctx, store) if node[2] else [([], False)]
+        if len(body) != 1:
+            ctx["unparsed"].append("branching inside a loop")
+        return [([("loop", body[0][0])] if body[0][0] else [], False)]
+    return [([], False)]
+
+
+def scan_helpers(rd):
+    """static store<X>/load<X> helper pairs taking the engine (storeDV/loadDV, storeIC/loadIC, ...): every control-flow
+    path of both bodies as an action list, and the decision conditions (if / switch / case texts) in source order"""
+    found = {}
+    for f in sorted(glob.glob(os.path.join(SRC, "**", "*.cpp"), recursive=True)):
+        if f.endswith("XTemplateSerializer.cpp"):
+            continue
+        try:
+            raw = open(f, errors="replace").read()
+        except OSError:
+            continue
+        if "XSerializeEngine" not in raw:
+            continue
+        t = strip_comments(raw)
+        filevars = {}
+        for m in re.finditer(r"(?:static\s+)?const\s+((?:unsigned\s+)?\w+)\s+(\w+)\s*=", t):
+            filevars[m.group(2)] = m.group(1)
+        for m in re.finditer(r"\b(\w+)\s*::\s*(store|load)([A-Z]\w*)\s*\(", t):
+            q = match_brace(t, m.end() - 1, "(", ")")
+            params = t[m.end():q]
+            em = re.search(r"XSerializeEngine\s*&\s*(\w+)", params)
+            k = skip_ws(t, q + 1)
+            if not em or k >= len(t) or t[k] != "{":
+                continue
+            j = match_brace(t, k)
+            plocals = {}
+            for prm in split_args(params):
+                pm = re.match(r"^\s*(.*?)\b(\w+)\s*$", " ".join(prm.split()))
+                if pm and pm.group(1).strip():
+                    ty = re.sub(r"\bconst\b", "", pm.group(1))
+                    plocals[pm.group(2)] = " ".join(ty.split()).replace(" *", "*").replace("* ", "*").rstrip("&").strip()
+            found.setdefault(m.group(3), {})[m.group(2)] = {
+                "cls": m.group(1), "eng": em.group(1), "body": t[k + 1:j], "file": os.path.relpath(f, V.REPO),
+                "line": t.count("\n", 0, m.start()) + 1, "filevars": filevars, "plocals": plocals}
+    out = []
+    for name in sorted(found):
+        pair = found[name]
+        e = {"name": name, "unparsed": [], "file": next(iter(pair.values()))["file"], "narrowing": []}
+        if set(pair) != {"store", "load"}:
+            continue            # not a pair (e.g. loadNumber): handled where it is called
+        for d in ("store", "load"):
+            fn = pair[d]
+            loc = rd.locals_of(fn["body"])
+            loc.update(fn["plocals"])
+            ctx = {"cls": fn["cls"], "eng": fn["eng"], "locals": loc, "filevars": fn["filevars"], "unparsed": [], "returns": 0,
+                   "conds": []}
+            try:
+                ps = paths_of(rd, ("block", parse_block(fn["body"])), ctx, d == "store")
+            except ValueError as ex:
+                ps = []
+                ctx["unparsed"].append(str(ex))
+            e[d + "_paths"] = [normalise(a) for a, _ in ps]
+            e[d + "_conds"] = ctx["conds"]
+            e[d + "_line"] = fn["line"]
+            e["unparsed"] += ctx["unparsed"]
+        out.append(e)
+    for e in out:
+        # a typed read into a subclass pointer of what the store side writes through a base pointer: same wire form
+        for sp_ in e["store_paths"]:
+            for a in sp_:
+                if isinstance(a, dict) and a["a"] == "AObj":
+                    for lp_ in e["load_paths"]:
+                        for b in lp_:
+                            if isinstance(b, dict) and b["a"] == "AObj" and b["cls"] != a["cls"]:
+                                c, chain, seen = None, [b["cls"]], 0
+                                while chain and seen < 30:
+                                    seen += 1
+                                    c = chain.pop()
+                                    if c == a["cls"]:
+                                        e["narrowing"].append("%s read as %s" % (a["cls"], b["cls"]))
+                                        b["type"] = b["cls"] + "* (subclass of " + a["cls"] + ")"
+                                        b["cls"] = a["cls"]
+                                        break
+                                    chain += rd.idx.classes.get(c, {}).get("bases", [])
+        for d in ("store", "load"):
+            fl = [flatten(p_, rd) for p_ in e.pop(d + "_paths")]
+            uniq, seen = [], set()
+            for c_, s_ in fl:
+                if tuple(c_) not in seen:
+                    seen.add(tuple(c_))
+                    uniq.append((c_, s_))
+            e[d + "_coq"] = [c_ for c_, _ in uniq]
+            e[d] = [" ".join(s_) for _, s_ in uniq]
+        e["unknown_types"] = [s for s in e["store"] + e["load"] if "WUnknown" in s]
+        e["narrowing"] = sorted(set(e["narrowing"]))
+    return out
+
+
 def generate():
     rd, classes = scan()
+    helpers = scan_helpers(rd)
+    for h in helpers:
+        if h["name"] not in rd.helpers:
+            rd.helpers[h["name"]] = len(rd.helpers) + 1
+        h["id"] = rd.helpers[h["name"]]
     conts = scan_containers(rd)
     for e in conts:
         if e["sig"] not in rd.tmpl:
@@ -756,11 +901,25 @@ def generate():
     lines.append("Definition ser_container_inserts : list insert_sig :=\n  [%s]." % ";\n   ".join(
         "(%d%%N, [%s])" % (crc(e["sig"]), "; ".join("[%s]" % "; ".join("%d%%N" % h for h in call) for call in e["insert_hash"]))
         for e in cparsed))
+    lines.append("")
+    lines.append("(** static store<X>/load<X> helper pairs: (helper id, action lists of all store paths, of all load paths) *)")
+    hparsed = [h for h in helpers if not h["unparsed"]]
+    for h in helpers:
+        lines.append("(* helper %d = store%s/load%s   (%s:%d/%d)%s *)" % (h["id"], h["name"], h["name"], h["file"], h["store_line"], h["load_line"],
+                                                                        "  UNPARSED ITEMS: correspondence only" if h["unparsed"] else ""))
+        lines.append("Definition ser_h%d : hentry := (%d,\n  [%s],\n  [%s])." % (
+            h["id"], h["id"], ";\n   ".join("[%s]" % "; ".join(p_) for p_ in h["store_coq"]),
+            ";\n   ".join("[%s]" % "; ".join(p_) for p_ in h["load_coq"])))
+    lines.append("Definition ser_helpers : list hentry :=\n  [%s]." % "; ".join("ser_h%d" % h["id"] for h in hparsed))
+    lines.append("(** decision conditions of each pair: (crc of the helper name, [crcs of the store side's if/switch/case texts; of the load side's]) *)")
+    lines.append("Definition ser_helper_conds : list insert_sig :=\n  [%s]." % ";\n   ".join(
+        "(%d%%N, [[%s]; [%s]])" % (crc(h["name"]), "; ".join("%d%%N" % crc(c_) for c_ in h["store_conds"]),
+                                   "; ".join("%d%%N" % crc(c_) for c_ in h["load_conds"])) for h in hparsed))
     V.write_if_changed(os.path.join(V.COQ, "theories", "Gen", "GenSerialize.v"), "\n".join(lines) + "\n")
     obl = ["(** GENERATED by translator/c16_ser.py - one obligation per class with a completely read serialize() body:",
            "    after inlining the base-class calls, the store branch and the load branch issue the same sequence of",
            "    wire-level actions (same length, same order, same width/kind at every position). *)",
-           "From XV Require Import Base.XDefs C16.Model16 C16.Containers16 Gen.GenSerialize.", ""]
+           "From XV Require Import Base.XDefs C16.Model16 C16.Containers16 C16.Helpers16 Gen.GenSerialize.", ""]
     for c in parsed:
         obl.append("Lemma T16_sym_%s : class_obligation ser_classes ser_c%d = true.\nProof. vm_compute. reflexivity. Qed." % (c["name"], c["id"]))
     for e in cparsed:
@@ -769,12 +928,19 @@ def generate():
     obl.append("Lemma T16_tmpl_all : forallb container_ok ser_containers = true.\nProof. vm_compute. reflexivity. Qed.")
     obl.append("Lemma T16_tmpl_covered : tmpl_covered ser_parsed ser_containers = true.\nProof. vm_compute. reflexivity. Qed.")
     obl.append("Lemma T16_tmpl_inserts : inserts_ok pinned_container_inserts ser_container_inserts = true.\nProof. vm_compute. reflexivity. Qed.")
+    for h in hparsed:
+        obl.append("Lemma T16_helper_%s : helper_ok ser_h%d = true.\nProof. vm_compute. reflexivity. Qed." % (h["name"], h["id"]))
+    obl.append("Lemma T16_helper_all : forallb helper_ok ser_helpers = true.\nProof. vm_compute. reflexivity. Qed.")
+    obl.append("Lemma T16_helper_covered : helpers_covered (ser_parsed ++ ser_containers) ser_helpers = true.\nProof. vm_compute. reflexivity. Qed.")
+    obl.append("Lemma T16_helper_conds : inserts_ok pinned_helper_conds ser_helper_conds = true.\nProof. vm_compute. reflexivity. Qed.")
     obl.append("")
     obl.append("Lemma T16_sym_all : forallb (class_obligation ser_classes) ser_parsed = true.\nProof. vm_compute. reflexivity. Qed.")
     obl.append("Lemma ser_level_pos : (0 < ser_level < 4294967296)%N.\nProof. vm_compute. split; reflexivity. Qed.")
     obl.append("Lemma ser_bufsize_min : (8 <= ser_bufsize)%N.\nProof. vm_compute. discriminate. Qed.")
     V.write_if_changed(os.path.join(V.COQ, "theories", "Gen", "GenSerializeObl.v"), "\n".join(obl) + "\n")
     side = {"level": level, "bufsize": bufsize, "class_ids": rd.cls_ids, "template_kinds": rd.tmpl, "helpers": rd.helpers,
+            "helper_pairs": [{k: h[k] for k in ("id", "name", "file", "store_line", "load_line", "store", "load", "store_conds",
+                                                "load_conds", "unparsed", "unknown_types", "narrowing")} for h in helpers],
             "containers": [{k: e[k] for k in ("id", "sig", "line", "store", "load", "unparsed", "unknown_types", "narrowing", "insert")}
                            for e in conts],
             "classes": [{k: c[k] for k in ("id", "name", "file", "line", "creatable", "declared_nocreate", "store", "load",
